@@ -146,3 +146,16 @@ func Batch(t *rapid.T, code uint64, max int, allowExpired bool, pool string) []Q
 	}
 	return out
 }
+
+// BulkCreates builds n create operations for n distinct DIDs without drawing anything (keys by index, one small
+// patch each): transactions and batches far beyond hand-written sizes.
+func BulkCreates(code uint64, n int, pool string) []QOp {
+	out := make([]QOp, 0, n)
+	for i := 0; i < n; i++ {
+		rec, upd := keys.Get(keys.Ed25519, pool+"/bulk", 2*i), keys.Get(keys.Ed25519, pool+"/bulk", 2*i+1)
+		patches := []interface{}{map[string]interface{}{"action": "add-also-known-as", "uris": []interface{}{fmt.Sprintf("https://bulk.example/%d", i)}}}
+		c := &asm.Create{Code: code, RecoveryCommit: asm.Commit(rec, code), Delta: asm.Delta(asm.Commit(upd, code), patches)}
+		out = append(out, QOp{Type: "create", Suffix: c.Suffix(), Request: c.Bytes(), DID: i})
+	}
+	return out
+}
